@@ -116,7 +116,7 @@ def ctx_verif():
 def rt_job(ctx, name, files, **kw):
     """G job on llgo's runtime package (module /repo/runtime)."""
     C = _check()
-    kw.setdefault('replay', slice_replay())
+    kw.setdefault('replay', slice_replay(inpkg='rt_inpkg.go'))
     return C.GJob(name, os.path.join(ctx.repo, 'runtime'), './internal/runtime', 'runtime',
                   os.path.join(ctx.repo, RT), files, tags='llgo', **kw)
 
@@ -373,3 +373,10 @@ def c11(ctx):
                    os.path.join(ctx.repo, 'runtime/internal/lib/sync/atomic'), [H(ctx, 'C11', 'value_h.go')], tags='llgo', unwind=30,
                    deadline_s=900 if q else 3000, extra=ex, replay=slice_replay(inpkg='latomic_inpkg.go'))
     return [librt_job(ctx, 'sema', [H(ctx, 'C11', 'sema_h.go')], unwind=30, deadline_s=900 if q else 3000, extra=ex), value]
+
+
+@prop('C06', level='model_checking', title='maps behave as finite maps')
+def c06(ctx):
+    q = ctx.quick
+    only = ['H_map_p0_ops2', 'H_map_p7_ops1', 'H_map_p8_ops1', 'H_map_clear_refill', 'H_map_clear_regrow', 'H_map_clear_rounds', 'H_map_nil'] if q else None
+    return [rt_job(ctx, 'map', [H(ctx, 'C06', 'map_h.go')], unwind=200, deadline_s=900 if q else 3000, only=only)]
